@@ -18,6 +18,7 @@ import (
 	"pgregory.net/rapid"
 
 	"gitlab.com/yawning/obfs4.git/internal/verifkit/detrand"
+	"gitlab.com/yawning/obfs4.git/internal/verifkit/drive"
 	"gitlab.com/yawning/obfs4.git/internal/verifkit/ev"
 	"gitlab.com/yawning/obfs4.git/internal/verifkit/refobfs4"
 	"gitlab.com/yawning/obfs4.git/internal/verifkit/wire"
@@ -527,6 +528,112 @@ func TestVerifC05LongSession(t *testing.T) {
 			c.Case(ev.Hash("long64k", vc), true, []string{"long", "long-distance-65536"}, func() any { return map[string]any{"victim_is_client": vc, "frames": 65536 + 12} })
 		}
 	}
+}
+
+// TestVerifC05Reflect: the attacker knows no key, but it has everything the endpoints themselves sealed.  The two
+// directions are keyed separately, so the sealed body of a frame an endpoint SENT must not open in that
+// endpoint's own decoder, even at the same frame number and behind a fitting length field.
+func TestVerifC05Reflect(t *testing.T) {
+	vfSetup(t)
+	c := ev.For("C05")
+	c.Rule("reflect: real client and real server, iat-mode 0; (a) victim server: the sealed body of the server's own seed frame (frame 1 of its direction, 45 bytes on the wire) replaces the body of the client's first frame (a 24-byte Write: also 45 bytes), whose length field is kept; (b) victim client: the server's seed frame is withheld, the client writes 24 bytes, and the body of that frame - which the client sealed itself - is presented to the client behind the seed frame's length field; 3000 genuine bytes follow in both variants; oracle: the victim delivers nothing (the forged frame is the first of its direction), in particular not its own bytes, and Read reports a non-EOF error; every case counts as non-trivial; fingerprint = bridge, variant")
+	rapid.Check(t, func(rt *rapid.T) {
+		rk := rapid.Uint64().Draw(rt, "randKey")
+		defer vfRandSeedKey(rk)()
+		br, _ := vfGenBridge(rt, []int{0})
+		victimIsClient := rapid.Bool().Draw(rt, "victimIsClient")
+		p, err := vfStartPair(br, false, 0)
+		if p != nil && p.N != nil {
+			defer p.N.Shutdown()
+		}
+		if err != nil {
+			rt.Fatalf("VIOL[c05-wedge]: %v", err)
+		}
+		p.N.ReleaseAll(wire.A)
+		if err := p.N.WaitQuiescent(wire.A, wire.B); err != nil {
+			rt.Fatalf("VIOL[c05-wedge]: %v", err)
+		}
+		resp := append([]byte(nil), p.N.PendingBytes(wire.B)...)
+		const fl = 45 // 2 length + 16 tag + 3 packet header + 24 bytes
+		if len(resp) < 96+fl {
+			rt.Fatalf("INFRA: server response of %d bytes", len(resp))
+		}
+		seedFrame := resp[len(resp)-fl:]
+		fail := func(f string, a ...any) {
+			rt.Fatalf(f+"\nvictimIsClient=%v", append(a, victimIsClient)...)
+		}
+		write := func(ep *drive.Endpoint, dir byte, off, n int) {
+			if r, _, _ := ep.Write(vfCounterStream(dir, off, n)); r.Failed() || r.Err != nil {
+				fail("VIOL[c05-write]: %s", r)
+			}
+		}
+		var victim *drive.Endpoint
+		var dir byte
+		if !victimIsClient {
+			victim, dir = p.Sv, 0
+			p.N.ReleaseAll(wire.B)
+			if err := p.N.WaitQuiescent(wire.A, wire.B); err != nil {
+				fail("VIOL[c05-wedge]: %v", err)
+			}
+			victim.KeepReading(3)
+			write(p.Cl, 0, 0, 24)
+			pend := append([]byte(nil), p.N.PendingBytes(wire.A)...)
+			if len(pend) < fl {
+				fail("VIOL[c05-write]: a 24-byte Write put %d bytes on the wire", len(pend))
+			}
+			mod := append(append(append([]byte(nil), pend[:2]...), seedFrame[2:]...), pend[fl:]...)
+			p.N.SetPending(wire.A, mod)
+			write(p.Cl, 0, 24, 3000)
+			p.N.ReleaseAll(wire.A)
+		} else {
+			victim, dir = p.Cl, 1
+			p.N.Release(wire.B, len(resp)-fl)
+			if err := p.N.WaitQuiescent(wire.A, wire.B); err != nil {
+				fail("VIOL[c05-wedge]: %v", err)
+			}
+			if !p.Cl.SetupDone() || p.Cl.SetupErr() != nil {
+				fail("VIOL[c05-wedge]: client handshake not complete with the whole response delivered (done=%v err=%v)", p.Cl.SetupDone(), p.Cl.SetupErr())
+			}
+			victim.KeepReading(3)
+			write(p.Cl, 0, 0, 24)
+			pend := append([]byte(nil), p.N.PendingBytes(wire.A)...)
+			if len(pend) < fl {
+				fail("VIOL[c05-write]: a 24-byte Write put %d bytes on the wire", len(pend))
+			}
+			p.N.ReleaseAll(wire.A)
+			if err := p.N.WaitQuiescent(wire.A, wire.B); err != nil {
+				fail("VIOL[c05-wedge]: %v", err)
+			}
+			p.N.SetPending(wire.B, append(append([]byte(nil), seedFrame[:2]...), pend[2:fl]...))
+			write(p.Sv, 1, 0, 3000)
+			p.N.ReleaseAll(wire.B)
+		}
+		if err := p.N.WaitQuiescent(wire.A, wire.B); err != nil {
+			fail("VIOL[c05-wedge]: %v", err)
+		}
+		if pv, stk := victim.Panic(); pv != nil {
+			fail("VIOL[c05-panic]: %v\n%s", pv, stk)
+		}
+		got := victim.Got()
+		want := vfCounterStream(dir, 0, 3024)
+		if len(got) > len(want) || !bytes.Equal(got, want[:len(got)]) {
+			fail("VIOL[c05-not-a-prefix]: the victim was sent the sealed body of a frame it had sealed itself and delivered %d bytes that are not a prefix of what its peer wrote (its own frames open in its own decoder)", len(got))
+		}
+		_, after := victim.AfterErr()
+		if len(got)-after > 0 {
+			fail("VIOL[c05-delivered-past-damage]: the first frame of the direction was forged and the victim delivered %d bytes before it reported an error", len(got)-after)
+		}
+		if rerr := victim.ReadErr(); rerr == nil {
+			fail("VIOL[c05-undetected]: a frame the victim sealed itself was accepted in its incoming direction: everything has been read and Read has not reported an error (delivered %d bytes)", len(got))
+		} else if errors.Is(rerr, io.EOF) {
+			fail("VIOL[c05-eof-instead-of-error]: Read reported io.EOF for a forged frame")
+		}
+		vfCloseTwice(p.Cl.Conn(), p.Sv.Conn())
+		cls := []string{"reflect", map[bool]string{true: "victim-client", false: "victim-server"}[victimIsClient]}
+		c.Case(ev.Hash("reflect", br.Seed, br.ID.NodeID, victimIsClient, rk), true, cls, func() any {
+			return map[string]any{"victim_is_client": victimIsClient, "seed": ev.Hex(br.Seed)}
+		})
+	})
 }
 
 func vfDummyFrames(specs []vfFrameSpec) [][]byte {
